@@ -539,6 +539,12 @@ def execute(world, op, dry=False):
         tags.append("attached" if s.__dict__.get("_parent") is not None else "detached")
         if s.__dict__.get("_link") is not None:
             tags.append("relink")
+        if kind(t) == "sec":
+            root = s
+            while root.__dict__.get("_parent") is not None:
+                root = root.__dict__.get("_parent")
+            if "chained-or-nested-links" in link_hazards(root, (s, t)):
+                tags.append("chained-or-nested-links")
 
         def fn():
             s.link = path
@@ -557,20 +563,7 @@ def execute(world, op, dry=False):
         tags = []
         # links whose target lies in the linking Section's own branch are outside every quantifier (C12
         # excludes them; resolving one copies the Section into itself without end)
-        stack = list(raw_children(d)[0]) if kind(d) == "doc" else []
-        n = 0
-        while stack and n < 500:
-            s_ = stack.pop()
-            n += 1
-            stack.extend(raw_children(s_)[0])
-            link = s_.__dict__.get("_link")
-            if link is not None:
-                ok, t, _ = budget.run(lambda: _resolve(s_, link), 20000)
-                if ok and kind(t) == "sec" and (t is s_ or is_ancestor(t, s_) or is_ancestor(s_, t)):
-                    tags.append("link-into-own-branch")
-                elif not ok or t is None:
-                    tags.append("link-unresolvable")
-        tags = sorted(set(tags))
+        tags = sorted(set(link_hazards(d)))
         fn = lambda: d.finalize()
     elif name == "clean":
         d = g(op[1])
@@ -669,6 +662,37 @@ def execute(world, op, dry=False):
         world.objs.append(res["ret"] if res["raised"] is None and kind(res["ret"]) else None)
         res["new"] = len(world.objs) - 1
     return res
+
+
+def link_hazards(d, extra=None):
+    """Tags for link constellations that C12's quantifier excludes (resolving them may never end):
+    a link into the linking Section's own branch, and chained / nested links (a target that is, contains
+    or lies inside another linking Section).  extra = (section, target) about to be linked."""
+    tags = []
+    pairs = []
+    stack = list(raw_children(d)[0]) if kind(d) in ("doc", "sec") else []
+    n = 0
+    while stack and n < 500:
+        s_ = stack.pop()
+        n += 1
+        stack.extend(raw_children(s_)[0])
+        link = s_.__dict__.get("_link")
+        if link is not None and not (extra and extra[0] is s_):
+            ok, t, _ = budget.run(lambda: _resolve(s_, link), 20000)
+            if ok and kind(t) == "sec":
+                pairs.append((s_, t))
+            else:
+                tags.append("link-unresolvable")
+    if extra is not None:
+        pairs.append(extra)
+    for l, t in pairs:
+        if t is l or is_ancestor(t, l) or is_ancestor(l, t):
+            tags.append("link-into-own-branch")
+    for i, (l1, t1) in enumerate(pairs):
+        for j, (l2, t2) in enumerate(pairs):
+            if i != j and (t1 is l2 or is_ancestor(t1, l2) or is_ancestor(l2, t1)):
+                tags.append("chained-or-nested-links")
+    return tags
 
 
 def _resolve(sec, link):
